@@ -1,4 +1,4 @@
 From Coq Require Extraction ExtrOcamlBasic.
-From Verif Require Import model.Multipart.
+From Verif Require Import model.MultipartFeed.
 Extraction Language OCaml.
 Extraction "../ocaml/build/mC06.ml" corr_C06.
